@@ -59,6 +59,121 @@ def int_values(ctx):
         yield rng.randrange(-(1 << rng.randrange(1, 600)), 1 << rng.randrange(1, 600))
 
 
+def gen_tree(rng, depth):
+    """a random value tree: ('int', v) | ('oct', b) | ('utf8', s) | ('oid', s) | ('bool', b) | ('seq', [kids]) | ('set', [kids]); containers
+    may be empty and nest up to `depth`"""
+    kinds = ["int", "oct", "utf8", "oid", "bool"] + (["seq", "set"] * 2 if depth > 0 else [])
+    k = rng.choice(kinds)
+    if k == "int":
+        return ("int", rng.choice([0, 1, -1, 127, 128, -128, -129, 255, 256, -65536, 2**31, -2**63, rng.randrange(-2**40, 2**40)]))
+    if k == "oct":
+        return ("oct", bytes(rng.randrange(256) for _ in range(rng.choice([0, 1, 5, 127, 128, 130]))))
+    if k == "utf8":
+        return ("utf8", rng.choice(["", "SID", "S-1-5-18", "dömäin", "\U0001F600x"]))
+    if k == "oid":
+        return ("oid", rng.choice(["1.2.840.113549.1.7.3", "2.16.840.1.101.3.4.1.45", "0.0", "1.3.0.0.1", "2.39.4294967296.1", "1.2.0.840"]))
+    if k == "bool":
+        return ("bool", rng.random() < 0.5)
+    return (k, [gen_tree(rng, depth - 1) for _ in range(rng.choice([0, 0, 1, 2, 3]))])
+
+
+def write_tree(w, t):
+    k, v = t
+    if k == "int":
+        w.write_integer(v)
+    elif k == "oct":
+        w.write_octet_string(v)
+    elif k == "utf8":
+        w.write_utf8_string(v)
+    elif k == "oid":
+        w.write_object_identifier(v)
+    elif k == "bool":
+        w.write_boolean(v)
+    else:
+        with (w.push_sequence() if k == "seq" else w.push_set()) as inner:
+            for kid in v:
+                write_tree(inner, kid)
+
+
+def read_tree(r, t):
+    """the typed reader calls that mirror the schema of `t`"""
+    k, v = t
+    if k == "int":
+        return ("int", r.read_integer())
+    if k == "oct":
+        return ("oct", r.read_octet_string())
+    if k == "utf8":
+        return ("utf8", r.read_utf8_string())
+    if k == "oid":
+        return ("oid", r.read_object_identifier())
+    if k == "bool":
+        return ("bool", r.read_boolean())
+    inner = r.read_sequence() if k == "seq" else r.read_set()
+    kids = [read_tree(inner, kid) for kid in v]
+    if inner.get_remaining_data():
+        raise ValueError("octets left over inside a container")
+    return (k, kids)
+
+
+def ref_tree(t):
+    """independent DER encoder (harness/der.py)"""
+    import der
+    k, v = t
+    if k == "int":
+        return der.enc_int(v)
+    if k == "oct":
+        return der.enc(0, False, 4, v)
+    if k == "utf8":
+        return der.enc(0, False, 12, v.encode("utf-8"))
+    if k == "oid":
+        return der.enc_oid(v)
+    if k == "bool":
+        return der.enc(0, False, 1, b"\xff" if v else b"\x00")
+    return der.enc(0, True, 16 if k == "seq" else 17, b"".join(ref_tree(x) for x in v))
+
+
+def trees(ctx, a, cases):
+    """nested writers / the reader cursor: ASN1Writer (push_sequence / push_set contexts) and ASN1Reader on random trees and concatenations"""
+    rng = ctx.rng
+    fixed = [("seq", []), ("set", []), ("seq", [("seq", [])]), ("seq", [("int", 5), ("seq", []), ("oct", b"x")]), ("set", [("set", [("seq", [])])]),
+             ("seq", [("seq", [("seq", [("seq", [("int", -65536)])])])])]
+    for i in range(400 if ctx.thorough else 120):
+        forest = [fixed[i]] if i < len(fixed) else [gen_tree(rng, rng.choice([1, 2, 3, 4])) for _ in range(rng.choice([1, 1, 2, 3]))]
+        try:
+            w = a.ASN1Writer()
+            for t in forest:
+                write_tree(w, t)
+            enc = bytes(w.get_data())
+        except Exception as e:  # noqa
+            ctx.violation("ASN1Writer fails on a value tree", {"forest": repr(forest)[:300]}, canon_exc(e), "an encoding")
+            continue
+        want = b"".join(ref_tree(t) for t in forest)
+        ctx.count("value_trees")
+        if enc != want:
+            ctx.violation("nested writers do not emit the DER encoding of the value tree", {"forest": repr(forest)[:300]}, hx(enc)[:120], hx(want)[:120])
+            continue
+        try:
+            r = a.ASN1Reader(enc + b"\xAA")
+            back = [read_tree(r, t) for t in forest]
+            left = bytes(r.get_remaining_data())
+        except Exception as e:  # noqa
+            ctx.violation("ASN1Reader fails on what ASN1Writer wrote", {"forest": repr(forest)[:300], "encoding": hx(enc)}, canon_exc(e), "the tree")
+            continue
+        if back != forest or left != b"\xAA":
+            ctx.violation("reading concatenated / nested values does not return them in order with exactly the encoding consumed",
+                          {"forest": repr(forest)[:300], "encoding": hx(enc)}, repr(back)[:200] + " left " + hx(left), "the forest, left aa")
+        # per-node model correspondence: every container is packtlv of the concatenation of its children
+        def node_lines(t):
+            k, v = t
+            if k in ("seq", "set"):
+                content = b"".join(ref_tree(x) for x in v)
+                cases.append((f"packtlv 0 {16 if k == 'seq' else 17} 1 {hx(content)}", "ok " + hx(ref_tree(t))))
+                for x in v:
+                    node_lines(x)
+        for t in forest:
+            node_lines(t)
+
+
 def run(ctx):
     import dpapi_ng._asn1 as a
     prelude.validate(ctx)
@@ -190,6 +305,7 @@ def run(ctx):
             ctx.count("malformed")
             if r.startswith("err ") and r[4:] not in ("ValueError", "NotEnougData"):
                 ctx.violation("reader escapes with an internal error type", {"reader": name, "data": hx(s)}, r, "ValueError or NotEnougData")
+    trees(ctx, a, cases)
     flush()
 
 
@@ -231,5 +347,20 @@ def replay(ctx, payload):
             r = canon_exc(e)
         print(f"value={val} encoded={hx(enc)} expected={hx(exp)} read-back={r}")
         return enc == exp and r == (val, len(enc))
+    if "forest" in v:
+        import ast as _ast
+        forest = _ast.literal_eval(v["forest"])
+        w = a.ASN1Writer()
+        for t in forest:
+            write_tree(w, t)
+        enc = bytes(w.get_data())
+        want = b"".join(ref_tree(t) for t in forest)
+        print(f"forest={forest!r}\n  written  {hx(enc)}\n  expected {hx(want)}")
+        if enc != want:
+            return False
+        r = a.ASN1Reader(enc)
+        back = [read_tree(r, t) for t in forest]
+        print("  read back", back, "left", hx(bytes(r.get_remaining_data())))
+        return back == forest and not r.get_remaining_data()
     print("replay input:", v)
     return False
